@@ -12,6 +12,7 @@ NETS = ["none", "main", "test", "stage"]
 
 class C11(CurveCheck):
     pid = "C11"
+    profiles = ("release", "dev")      # dev = overflow checks and debug assertions on (index / position arithmetic)
     rule = ("subaddr (all seven functions of cryptonote::subaddress on one wallet/index): indices "
             "{0,1,2,18,0xff,0x100,0xffff,0x10000,2^32-1}^2 (both zero / exactly one zero / small / byte boundaries / u32::MAX) "
             "x random wallets (plus the wallet of the crate's own test, and scalars 0, 1, l-1), network argument cycling "
